@@ -1,12 +1,14 @@
 """Pool: see m_same1."""
 from dataclasses import dataclass, field
+
+from sim.pool.base import StableHashMeta
 from typing import Optional
 
 __NAMESPACE__ = "urn:s2"
 
 
 @dataclass
-class Thing:
+class Thing(metaclass=StableHashMeta):
     class Meta:
         name = "thing"
         namespace = "urn:s2"
@@ -16,7 +18,7 @@ class Thing:
 
 
 @dataclass
-class Dup:
+class Dup(metaclass=StableHashMeta):
     class Meta:
         name = "dup"
         namespace = "urn:dup"
